@@ -99,9 +99,26 @@ def _s5(day):
     return zd, day, ["db", "reindex"]
 
 
+def _s6(day):
+    """The page that is re-indexed holds, after the edited note, notes with properties
+    and single-use tags: removing the old page commits several times on the way."""
+    files = {
+        "a.zo": "# A\n\n- 240101#A1 edited first note v0\n- 240101#A2 second k::v1 +solo\n"
+                "o P2 240101#A3 third due::2024-06-01 @only [[b]]\n- 240101#A4 edited last note v0 k::v2\n",
+        "b.zo": "# B\n\n- 240102#B1 untouched page k::v1\n",
+    }
+    zd = Z.make_zdir(files, "c13b")
+    r = Z.db_create(zd, day)
+    if not Z.cli_ok(r):
+        raise H.HarnessError("S6 setup failed " + r.err[-300:])
+    t = (zd / "a.zo").read_text()
+    (zd / "a.zo").write_text(t.replace("first note v0", "first note v1").replace("last note v0", "last note v1"))
+    return zd, day + dt.timedelta(days=1), ["db", "reindex"]
+
+
 SCENARIOS = {"S1-create-new-notes": _s1, "S2-reindex-stamp-new-note-new-page": _s2,
              "S3-reindex-shared-tag": _s3, "S4-create-f-whitelist": _s4,
-             "S5-reindex-without-write-back": _s5}
+             "S5-reindex-without-write-back": _s5, "S6-reindex-page-with-properties-and-single-use-tags": _s6}
 
 
 # ---------------------------------------------------------------------------
